@@ -300,6 +300,9 @@ func (e BridgeEngine) genKind(r *Run, kind string) (Step, bool) {
 		if r.Prop == "C03" && r.Pct(60) {
 			to = RecorderAddr(w)
 		}
+		if (r.Prop == "C04" || r.Prop == "C05" || r.Prop == "C06") && r.Pct(40) {
+			to = RecorderAddr(w)
+		}
 		if r.Prop == "C01" && r.Pct(50) {
 			// re-entrancy: the call goes (memo = send-call-to) to the forwarder contract with call data
 			// executeClaim(chain, <the nonce this very event will get>)
